@@ -3,7 +3,7 @@
 import json, os, subprocess, sys
 ROOT = os.path.dirname(os.path.dirname(os.path.abspath(__file__)))
 
-HOOK_COMMITS = ["424d91d", "9dba8ee", "9908f96", "db73fbd"]
+HOOK_COMMITS = ["424d91d", "9dba8ee", "9908f96", "db73fbd", "0a2def0"]
 
 # property -> (engine, category, technique, text, note, design_ref)
 CHECKS = {
